@@ -42,7 +42,7 @@ claim("C07",
       "DESIGN.md 3 C07")
 claim("C08",
       "Theorems: a path is routed to a loaded history that contains it and whose root is at least as deep as that of any other loaded history containing it (fold invariant over any list of histories); containing roots of equal depth are equal, so string-prefix sibling names cannot confuse the component-wise routing; the record path is relative to that root; the root folder of a nested history is also recorded in its parent history as a directory entry with the same hashes; one history's commit either is skipped (no records, no references), aborts, or writes exactly one generation numbered latest+1, manifest before chain, creating the ascmhl folder only when absent, and hands exactly one reference (relative path, generation number) to its parent's list and to no other. Tied to the code by lockstep runs on random nestings (prefix-named siblings, depth <= 4, folder / -sf / -n) and an oracle that recomputes reference digests from the referenced files.",
-      "PARTIAL: the order of histories produced by load (children before parents) and the fold of commit over them are carried by the correspondence, not by a theorem.",
+      "PARTIAL: which histories write in one run (the commit set) for nested layouts and -sf mode is carried by the correspondence, not by a theorem. Proved in addition: load lists every nested history before the history containing it (root last) and commit performs its write operations grouped by history in that order (children before parents).",
       "Coq proof (fold invariants, case analysis of commit_one) + lockstep correspondence + reference/partition oracle",
       "DESIGN.md 3 C08")
 claim("C12",
